@@ -256,14 +256,24 @@ class TypeCheckMethod(DeserializationMethod):
         return self.fallback.deserialize(data)
 
 
+def copy_containers(data: Any) -> Any:
+    if data.__class__ is list:
+        return [copy_containers(elt) for elt in data]
+    if data.__class__ is dict:
+        return {key: copy_containers(value) for key, value in data.items()}
+    return data
+
+
 @dataclass
 class AnyMethod(DeserializationMethod):
     constraints: Dict[type, Tuple[Constraint, ...]]
+    # no_copy=False: the result shares no list/dict with the data
+    copy: bool = False
 
     def deserialize(self, data: Any) -> Any:
         if type(data) in self.constraints:
             validate_constraints(data, self.constraints[type(data)], None)
-        return data
+        return copy_containers(data) if self.copy else data
 
 
 @dataclass
